@@ -1,5 +1,5 @@
 From Coq Require Import Extraction ExtrOcamlBasic List String.
-From AC Require Import Base.Sexp Model.Loader Model.Introspect Model.TopLevel.
+From AC Require Import Base.Sexp Model.Loader Model.Introspect Model.TopLevel Model.LexTop.
 Import ListNotations.
 Local Open Scope string_scope.
 Definition dispatch (e : sexp) : sexp :=
@@ -7,6 +7,7 @@ Definition dispatch (e : sexp) : sexp :=
   | L (A "loader" :: r) => run_loader (L r)
   | L (A "introspect" :: r) => run_introspect (L r)
   | L (A "toplevel" :: r) => run_toplevel (L r)
+  | L (A "lextop" :: r) => run_lextop (L r)
   | _ => sErr "C19: bad engine command"
   end.
 Extraction "model.ml" dispatch.
